@@ -325,7 +325,13 @@ func (c *Ctx) Response(rich bool) *Response {
 	for i := 0; i < nh; i++ {
 		name := "X-R" + c.SafeName("h", "rhname")
 		// header names are case-insensitive: declare some in non-canonical letter case
-		switch rapid.IntRange(0, 3).Draw(t, "rh_case") {
+		switch rapid.IntRange(0, 4).Draw(t, "rh_case") {
+		case 4:
+			// names real APIs document
+			cand := rapid.SampledFrom([]string{"Location", "ETag", "Retry-After", "X-Content-Type-Options", "X-Frame-Options", "Content-Language", "Content-Disposition", "WWW-Authenticate", "Last-Modified", "X-Request-Id", "Link", "Cache-Control"}).Draw(t, "rh_real")
+			if _, taken := r.Headers[cand]; !taken {
+				name = cand
+			}
 		case 0:
 			name = strings.ToLower(name)
 		case 1:
@@ -589,6 +595,13 @@ func (c *Ctx) MapFat() *Doc {
 		d.Servers = []*Server{{URL: "https://{" + names[0] + "}.example.com/{" + names[1] + "}/{" + names[2] + "}", Variables: vars}}
 		c.Tag("fat:server-variables")
 	}
+	// a path and its trailing-slash twin (two different templates), several pairs
+	for i := 0; i < 3; i++ {
+		base := "/" + c.PlainName("twin", "twin")
+		d.Paths[base] = &PathItem{Get: MinimalOp(), Post: MinimalOp()}
+		d.Paths[base+"/"] = &PathItem{Get: MinimalOp(), Delete: MinimalOp()}
+	}
+	c.Tag("fat:trailing-slash-twins")
 	// content maps whose keys differ only in media type parameters or letter case, each
 	// with its own schema (every entry is its own media type)
 	{
@@ -724,7 +737,7 @@ func (c *Ctx) ParamsDoc(withPathVars bool, withBodies ...bool) *Doc {
 		if withPathVars && rapid.Bool().Draw(t, "has_pathvar") {
 			nv := rapid.IntRange(1, 2).Draw(t, "npathvars")
 			for j := 0; j < nv; j++ {
-				name := c.PlainName("v", "var")
+				name := c.VarName("var")
 				if rapid.IntRange(0, 5).Draw(t, "lit_named_like_var") == 0 {
 					segs = append(segs, name) // /tag/{tag}
 					c.Tag("path:constant-equals-variable-name")
@@ -975,7 +988,9 @@ func (c *Ctx) CorsDoc() *Doc {
 			d.Security = &sec
 		}
 	}
-	hdrPool := []string{"x-trace", "X-Trace", "X-trace", "If-Match", "if-match", "X-Request-Tag", "x-request-tag", "ETag-Hint", "X-" + c.PlainName("h", "hdr")}
+	// (incl. names browsers treat specially: a declared header parameter is advertised whatever its name)
+	hdrPool := []string{"x-trace", "X-Trace", "X-trace", "If-Match", "if-match", "X-Request-Tag", "x-request-tag", "ETag-Hint", "X-" + c.PlainName("h", "hdr"),
+		"Accept-Language", "accept", "Content-Language", "content-type", "Range", "X-Content-Type-Options", "Origin-Hint"}
 	tps := c.Templates(5, 3)
 	for _, tp := range tps {
 		pi := &PathItem{}
@@ -1005,6 +1020,14 @@ func (c *Ctx) CorsDoc() *Doc {
 				}
 				used[strings.ToLower(h)] = true
 				op.Parameters = append(op.Parameters, &Parameter{Name: h, In: "header", Required: rapid.Bool().Draw(t, "hreq"), Schema: &Schema{Type: "string"}})
+			}
+			// a query parameter named like a path-item level header parameter is another
+			// parameter (parameters are identified by name AND location)
+			for _, pl := range pi.Parameters {
+				if pl.In == "header" && rapid.IntRange(0, 3).Draw(t, "query_twin_of_header") == 0 {
+					op.Parameters = append(op.Parameters, &Parameter{Name: pl.Name, In: "query", Schema: &Schema{Type: "string"}})
+					c.Tag("cors:query-twin-of-path-level-header")
+				}
 			}
 			if len(names) > 0 {
 				switch rapid.IntRange(0, 3).Draw(t, "op_sec") {
